@@ -138,8 +138,20 @@ def c16_lemmas():
     return out
 
 
+def _bounded(prefix, script, module, tier, seed, nshards):
+    from .bounded.runner import obligations as bounded_obligations
+    return bounded_obligations(
+        prefix, script, tier, seed,
+        "if __name__ == '__main__':\n    import sys\n    sys.path.insert(0, %r)\n"
+        "    from pyvc.bounded import %s as H\n"
+        "    sys.exit(H.replay(REPLAY['witness'], '%%(clause)s'))\n" % (os.path.dirname(HERE), module), nshards=nshards)
+
+
 def run(pid, tier, seed, world):
     out = []
+    if pid == 'C14':
+        out += _bounded('bounded.ZipReader', 'c14_zipreader.py', 'c14_zipreader', tier, seed, 4 if tier == 'thorough' else 1)
+        out += _bounded('bounded.readers', 'c14_filereader.py', 'c14_filereader', tier, seed, 8 if tier == 'thorough' else 2)
     if pid == 'C16':
         out += c16_lemmas()
         from .bounded.runner import obligations as bounded_obligations
